@@ -44,7 +44,31 @@ theorem wireCap_ok (cfg : Cfg) (r : Req) (n : Nat) (hcl : r.contentLength = some
     · have : ¬ c < n := by omega
       simp [this]
 
+theorem refusal_ends : Gen.ReqBody.refusalEndsRequest = true := rfl
+
 end Aux
+
+/-- `process` once the extracted fact "a refusal ends the request" is used -/
+def processCore (L : Libs) (cfg : Cfg) (r : Req) : Result :=
+  match wireCap cfg r with
+  | .error st => ⟨.status st, 0, []⟩
+  | .ok capped =>
+    let d := decodeStage L cfg r capped
+    ⟨match d.res with
+      | .error st => .status st
+      | .ok (some b) => .toRpc b
+      | .ok none => .toRpc (match capped with | some b => b | none => bounded r),
+     d.peak, d.reads⟩
+
+theorem process_eq (L : Libs) (cfg : Cfg) (r : Req) : process L cfg r = processCore L cfg r := by
+  simp only [process, processCore, Aux.refusal_ends, if_true]
+  cases wireCap cfg r with
+  | error st => rfl
+  | ok capped =>
+    simp only
+    cases (decodeStage L cfg r capped).res with
+    | error st => rfl
+    | ok o => cases o <;> rfl
 
 /-! ## Obligations -/
 
@@ -53,7 +77,7 @@ exceeds the cap is refused with 413 before anything is read or decoded. -/
 theorem C17_413_wire_partial (L : Libs) (cfg : Cfg) (r : Req) (c n : Nat) (hcap : cfg.cap = some c) (hpost : r.verb = post)
     (hcl : r.contentLength = some n) (hbig : c < n) :
     process L cfg r = ⟨.status 413, 0, []⟩ := by
-  simp [process, wireCap, hcap, Aux.not_exempt_post cfg r hpost, hcl, Aux.cl_gt, hbig, Aux.st_wire]
+  simp [process_eq, processCore, wireCap, hcap, Aux.not_exempt_post cfg r hpost, hcl, Aux.cl_gt, hbig, Aux.st_wire]
 
 /-- the decode stage for a request that passed the wire cap with a Content-Length, in an enabled real coding -/
 theorem decode_enabled (L : Libs) (cfg : Cfg) (r : Req) (n : Nat) (e : Enc)
@@ -69,7 +93,7 @@ theorem decode_enabled (L : Libs) (cfg : Cfg) (r : Req) (n : Nat) (e : Enc)
     cases h : normalisedCoding r with
     | nil => rw [h, Aux.ofValue_nil] at hce; exact absurd hce (by simp)
     | cons a t => rfl
-  simp only [process, Aux.wireCap_ok cfg r n hcl hn, decodeStage, hne, Bool.false_eq_true, if_false, hce, Aux.identity_pass,
+  simp only [process_eq, processCore, Aux.wireCap_ok cfg r n hcl hn, decodeStage, hne, Bool.false_eq_true, if_false, hce, Aux.identity_pass,
     Bool.true_and, hid, decide_false, hen, Bool.not_true, Aux.decoded_cap, if_true, Aux.limit_first, Aux.st_decoded,
     Aux.st_undecodable]
   cases (C18.decompress L e (bounded r) cfg.cap).out <;> rfl
@@ -144,9 +168,9 @@ theorem C17_415 (L : Libs) (cfg : Cfg) (r : Req) (n : Nat)
     | nil => exact absurd h hne
     | cons a t => rfl
   rcases hbad with h | ⟨e, h, hid, hdis⟩
-  · simp [process, Aux.wireCap_ok cfg r n hcl hn, decodeStage, hne', h, Aux.st_unknown]
+  · simp [process_eq, processCore, Aux.wireCap_ok cfg r n hcl hn, decodeStage, hne', h, Aux.st_unknown]
   · have hnm : e ∉ cfg.decode := by simpa using hdis
-    simp [process, Aux.wireCap_ok cfg r n hcl hn, decodeStage, hne', h, Aux.identity_pass, hid, hnm, Aux.st_disabled]
+    simp [process_eq, processCore, Aux.wireCap_ok cfg r n hcl hn, decodeStage, hne', h, Aux.identity_pass, hid, hnm, Aux.st_disabled]
 
 /-- **C17_identity (partial: requests with Content-Length)** — with no coding, an empty coding or `identity` (any case, any
 surrounding whitespace — the token is compared after `strip().lower()`), a body within the cap reaches the RPC layer
@@ -157,12 +181,12 @@ theorem C17_identity_partial (L : Libs) (cfg : Cfg) (r : Req) (n : Nat)
     process L cfg r = ⟨.toRpc (r.wire.take n), 0, []⟩ ∧ (n = r.wire.length → (process L cfg r).outcome = .toRpc r.wire) := by
   have h1 : process L cfg r = ⟨.toRpc (r.wire.take n), 0, []⟩ := by
     rcases hce with h | h
-    · simp [process, Aux.wireCap_ok cfg r n hcl hn, decodeStage, h, bounded, hcl]
+    · simp [process_eq, processCore, Aux.wireCap_ok cfg r n hcl hn, decodeStage, h, bounded, hcl]
     · have hne' : (normalisedCoding r).isEmpty = false := by
         cases hh : normalisedCoding r with
         | nil => rw [hh, Aux.ofValue_nil] at h; exact absurd h (by simp)
         | cons a t => rfl
-      simp [process, Aux.wireCap_ok cfg r n hcl hn, decodeStage, hne', h, Aux.identity_pass, bounded, hcl]
+      simp [process_eq, processCore, Aux.wireCap_ok cfg r n hcl hn, decodeStage, hne', h, Aux.identity_pass, bounded, hcl]
   refine ⟨h1, fun hlen => ?_⟩
   rw [h1, hlen]; simp
 
@@ -203,7 +227,8 @@ theorem C17_alloc (L : Libs) (cfg : Cfg) (r : Req) (c : Nat) (hcap : cfg.cap = s
       have := C18.C18_alloc_gzip (L.gzipView d) (hG d).1 Gen.Codec.chunkBytes hchunk (hG d).2 c
       simp only [C18.decompress, C18.Aux.mem_decompressDispatch, List.contains_eq_mem, decide_true, if_true]
       exact this
-  unfold process
+  rw [process_eq]
+  unfold processCore
   split
   · simp
   · exact decodeStage_peak L cfg r _ c hcap key
@@ -256,7 +281,8 @@ theorem decodeStage_error (L : Libs) (cfg : Cfg) (r : Req) (capped : Option Byte
 theorem C17_total (L : Libs) (cfg : Cfg) (r : Req) :
     (∃ b, (process L cfg r).outcome = .toRpc b) ∨ (process L cfg r).outcome = .status 413 ∨
     (process L cfg r).outcome = .status 415 ∨ (process L cfg r).outcome = .status 400 := by
-  unfold process
+  rw [process_eq]
+  unfold processCore
   split
   · rename_i st h
     rw [wireCap_error cfg r st h]; simp
